@@ -28,12 +28,12 @@ def parse_perrs(s):
 # ---------------------------------------------------------------- C14
 C14_THMS = ['Theo.C14_nullable_correct', 'Theo.C14_deriv_correct', 'Theo.C14_matchesB_correct', 'Theo.C14_longest_match',
             'Theo.C14_longest_none', 'Theo.C14_total', 'Theo.C14_partition', 'Theo.C14_each_maxmunch',
-            'Theo.C14_tokens_are_lexemes', 'Theo.C14_lines', 'Theo.C14_keywords', 'Theo.C14_keywords_documented', 'Theo.C14_silent_rules_documented', 'Theo.C14_identifier_words', 'Theo.C14_identifier_only', 'Theo.C14_word_one_token', 'Theo.C14_catch_all',
+            'Theo.C14_tokens_are_lexemes', 'Theo.C14_lines', 'Theo.C14_keywords', 'Theo.C14_keywords_documented', 'Theo.C14_silent_rules_documented', 'Theo.C14_number_rules_documented', 'Theo.C14_identifier_words', 'Theo.C14_identifier_only', 'Theo.C14_word_one_token', 'Theo.C14_catch_all',
             'Theo.C14_one_eof', 'Theo.C14_token_files']
 
 
 def check_C14(ctx):
-    build_all(ctx, ['Theo.Props.C14', 'Theo.Props.C14Ident', 'Theo.Props.C14Silent', 'Theo.Props.C15'], C14_THMS)
+    build_all(ctx, ['Theo.Props.C14', 'Theo.Props.C14Ident', 'Theo.Props.C14Silent', 'Theo.Props.C14Numbers', 'Theo.Props.C15'], C14_THMS)
     if ctx.harness is None:
         return finish(ctx)
     # (a) the committed scanner is what flex generates from lexer.l
@@ -54,6 +54,10 @@ def check_C14(ctx):
     inputs, nex = front.lex_inputs(ctx, ctx.n(1500, 20000), ctx.n(2, 3), ctx.n(0.02, 0.2))
     ctx.cov['exhaustive_strings'] = nex
     ctx.cov['exhaustive'] = False
+    # number-shaped words: leading zeros, `$`/`#` followed by digit runs, digits glued to identifiers
+    for w_ in ('0', '00', '007', '10', '010', '1x', 'x01', '$0', '$00', '$01', '$10', '#0', '#00', '#007', '$ 1', '#x', '0x10', '09', '90', '100000000000000000000',
+               'x := 007 ;', 'foo $01 #00 0', '1 2 03 4'):
+        inputs.append(w_.encode())
     a, b = front.corr_lex(ctx, inputs)
     # (c) independent oracle (python re, longest-match loop over lexer.l) against the implementation
     for inp, x in zip(inputs, a):
@@ -666,8 +670,14 @@ def check_C11(ctx):
         ctx.nontrivial(key)
     # rewrites ≤ budget: the model reports its count; the implementation's count is read off the per-budget streams
     # an unfinished expansion is not passed on: whole compilation with a self-reproducing macro
-    outs = impl(ctx, ['GEN ' + files_req(b'm', {b'm': t.encode()}) for t in texts[:3]], timeout=120)
-    for t, o in zip(texts[:3], outs):
+    whole = texts[:3] + [
+        # divergent sets whose every intermediate form is a well-formed program: only the budget error stops them
+        'DEFINE <ID> := 0 AS $0 := 0 ; $0 := 0 END DEFINE\nx1 := 0',
+        'DEFINE tick := <INT> AS tock := $0 END DEFINE\nDEFINE tock := <INT> AS tick := $0 END DEFINE\ntick := 1',
+        'DEFINE <ID> := <ID> AS $0 := $1 ; $1 := $0 END DEFINE\na := b',
+    ]
+    outs = impl(ctx, ['GEN ' + files_req(b'm', {b'm': t.encode()}) for t in whole], timeout=180)
+    for t, o in zip(whole, outs):
         ctx.cov['evaluations'] += 1
         if is_crash(o):
             ctx.violation('expansion-hang', 'compile did not return on a self-reproducing macro: ' + o[:200], {'source': t})
